@@ -337,6 +337,11 @@ func (p *VipnodePool) connect(ctx context.Context, nodeID string, req ConnectReq
 			p.remoteNodeLookup[service] = append(p.remoteNodeLookup[service], node.ID)
 		}
 		p.mu.Unlock()
+	} else {
+		// A node that comes back as a light client is no connected host any more.
+		p.mu.Lock()
+		delete(p.remoteHosts, node.ID)
+		p.mu.Unlock()
 	}
 
 	if err := p.Store.SetNode(node); err != nil {
